@@ -574,7 +574,7 @@ def fold_registrations(hm: "HooksModule"):
                     if m_.fields["value"] == v and type(m_.fields["value"]) is type(v):
                         return m_
                 raise Raised("ValueError", (f"{v!r} is not a valid {name}",))
-            return ClassRef(name, c.kind, ["Enum"], call=ctor, iter=lambda _m=members: _m)
+            return ClassRef(name, c.kind, ([c.enum_base] if c.enum_base else []) + ["Enum"], call=ctor, iter=lambda _m=members: _m)
         return ClassRef(name, c.kind, [])
     tattrs = {}
     for name in t.env:
